@@ -16,6 +16,7 @@ class Packet:
         self.packet_type = packet_type
         self.data = data
         self.encode_cache = None
+        self.encode_cache_b64 = False
         if isinstance(data, str):
             self.binary = False
         elif isinstance(data, binary_types):
@@ -33,7 +34,9 @@ class Packet:
         Note: as a performance optimization, subsequent calls to this method
         will return a cached encoded packet, even if the data has changed.
         """
-        if self.encode_cache:
+        # only binary packets have a different encoding for each channel kind
+        b64 = b64 and self.binary
+        if self.encode_cache is not None and self.encode_cache_b64 == b64:
             return self.encode_cache
         if self.binary:
             if b64:
@@ -51,6 +54,7 @@ class Packet:
             elif self.data is not None:
                 encoded_packet += str(self.data)
         self.encode_cache = encoded_packet
+        self.encode_cache_b64 = b64
         return encoded_packet
 
     def decode(self, encoded_packet):
